@@ -83,7 +83,10 @@ def build_executor(flavour="hooks"):
     exe = os.path.join(odir, "executor")
     need = (not os.path.exists(exe)) or jobs or os.path.getmtime(exe) < os.path.getmtime(lib)
     if need:
-        p = sh("%s %s -o %s %s %s -L/root/miniconda/lib -lxml2 -lz -Wl,-rpath,/root/miniconda/lib -lpthread" % (cxx, flags, exe, " ".join(objs), lib), timeout=600)
+        # the library comes first and whole: where the harness and the library instantiate the same templates (std::regex, ...) the
+        # linker keeps the first definition, and the library's own code must be what runs (a harness-side std::regex instantiation
+        # with smaller stack frames hid a stack exhaustion in the printer)
+        p = sh("%s %s -o %s -Wl,--whole-archive %s -Wl,--no-whole-archive %s -L/root/miniconda/lib -lxml2 -lz -Wl,-rpath,/root/miniconda/lib -lpthread" % (cxx, flags, exe, lib, " ".join(objs)), timeout=600)
         if p.returncode != 0:
             raise Broken("harness link failed:\n" + p.stdout[-4000:])
     return exe
